@@ -53,7 +53,7 @@ Definition delete_room (s : sid) (r : room) (st : adapter) : adapter :=
 
 (** DeleteAll: unknown sid -> nothing; else a.delete(sid, room) for each room of the sid's set,
     then delete(a.sids, sid).  (Go iterates the set in map order; the model in key order - the
-    result does not depend on it, see [delete_all_rooms_spec].) *)
+    result does not depend on it: RoomsProofs.foldl_del_room_look holds for any list.) *)
 Definition delete_all (s : sid) (st : adapter) : adapter :=
   match a_sids st !! s with
   | None => st
